@@ -96,7 +96,7 @@ func DecodeAudioSampleEntry(hdr BoxHeader, startPos uint64, r io.Reader) (Box, e
 	remaining := sr.RemainingBytes()
 	restReader := bytes.NewReader(remaining)
 
-	pos := startPos + nrAudioSampleBytesBeforeChildren // Size of all previous data
+	pos := startPos + uint64(hdr.Hdrlen) + nrAudioSampleBytesBeforeChildren - boxHeaderSize // Size of all previous data
 	for {
 		box, err := DecodeBox(pos, restReader)
 		if err == io.EOF {
@@ -133,7 +133,7 @@ func DecodeAudioSampleEntrySR(hdr BoxHeader, startPos uint64, sr bits.SliceReade
 	sr.SkipBytes(4) // Predefined + reserved
 	a.SampleRate = makeUint16FromFixed32(sr.ReadUint32())
 
-	pos := startPos + nrAudioSampleBytesBeforeChildren // Size of all previous data
+	pos := startPos + uint64(hdr.Hdrlen) + nrAudioSampleBytesBeforeChildren - boxHeaderSize // Size of all previous data
 	lastPos := startPos + hdr.Size
 	for pos < lastPos {
 		box, err := DecodeBoxSR(pos, sr)
